@@ -200,6 +200,34 @@ Session make(const std::string& kind, long idx)
 {
     Session s;
     s.tag = kind;
+    if (kind == "coldstart")
+    {
+        // no `uci`, no `isready`, no `position`: the engine's own commands (perft, moves, printboard, staticeval) on the
+        // built-in start position are the very first thing the process is asked to do
+        int v = int(idx % 5);
+        Board b = Board::startpos();
+        gen::Game g;
+        g.start_fen = b.fen();
+        if (v == 1 || v == 4)
+        {
+            gen::Policy pol;
+            g = gen::random_game(*RNG, b, 1 + int(RNG->below(v == 4 ? 30 : 6)), pol, "cold");
+            s.send("moves " + moves_text(g.moves, 0, g.moves.size()));
+            b = play(g, g.moves.size());
+        }
+        if (v == 2) s.send("staticeval");
+        if (v == 3) s.send("printboard");
+        s.tag = std::string("coldstart:") + (v == 0 ? "perft-first" : v == 2 ? "staticeval-first" : v == 3 ? "printboard-first" : "moves-first");
+        s.perft(1 + int(RNG->below(3)), b);
+        s.board(b);
+        // the same question again after the standard commands: the answer must not depend on what came first
+        s.send("uci");
+        s.sync();
+        s.send(pos_cmd(g, g.moves.size()));
+        s.perft(1 + int(RNG->below(2)), b);
+        s.send("quit");
+        return s;
+    }
     preamble(s);
     if (kind == "longgame")
     {
@@ -496,10 +524,28 @@ Session make(const std::string& kind, long idx)
         }
         s.tag = std::string("book:") + (best ? "best" : "random");
         s.steps.push_back("[\"bookfile\"," + vh::jstr(hex) + "]");
-        s.send("setoption name Polyglot Sample value " + std::string(best ? "best" : "random"));
-        s.send("setoption name Polyglot Book value @BOOK@");
+        // both orders of the two options (the policy must survive a book load, and a book must survive a policy change)
+        if (idx / 2 % 2 == 0)
+        {
+            s.send("setoption name Polyglot Sample value " + std::string(best ? "best" : "random"));
+            s.send("setoption name Polyglot Book value @BOOK@");
+        }
+        else
+        {
+            s.send("setoption name Polyglot Book value @BOOK@");
+            s.send("setoption name Polyglot Sample value " + std::string(best ? "best" : "random"));
+        }
         s.sync();
-        s.send(pos_cmd(g, g.moves.size()));
+        if (!g.moves.empty() && idx % 2)
+        {
+            // the root reached through the engine's `moves` command (appends to the current position)
+            size_t cut = RNG->below(uint32_t(g.moves.size()));
+            s.send(pos_cmd(g, cut));
+            s.send("moves " + moves_text(g.moves, cut, g.moves.size()));
+            s.tag += ":root-via-moves-command";
+        }
+        else
+            s.send(pos_cmd(g, g.moves.size()));
         // `legal` of this go step is the set of answers the book allows
         std::vector<std::string> lm;
         for (const orc::Move& m : allowed) lm.push_back(vh::jstr(m.uci()));
